@@ -123,6 +123,11 @@ class StubKernel:
         self.asked += idx.tolist()
         return self.dens[idx], self.thetas[idx]
 
+    def run(self, beta, alt, E, lat, long, cloudf=None):
+        """the per-event entry point of the real kernel, should the stage reach for it directly: same prescription, same record"""
+        d, t = self(np.array([beta]), np.array([alt]), np.array([E]), np.array([lat]), np.array([long]), cloudf)
+        return d[0], t[0]
+
 
 def chord(beta, z, zd, Re):
     """distance along the straight line leaving the sphere of radius Re at elevation beta, between the points at
@@ -421,6 +426,19 @@ def real_stream(ctx, mods):
     except Exception as e:  # noqa: BLE001
         ctx.violation("EAS.__call__", "all-out-of-range-batch-raises", f"a batch with no in-range event raises {type(e).__name__}: {e}",
                       {"altDec": alt_out.tolist()})
+    # ---- … and so when the batch is a single event (out of range on either side, at the closed ends, in range), at two detector
+    # altitudes: the window rule and the product rule hold whatever the batch size
+    for a1 in (-0.5, float(np.nextafter(20.0, np.inf)), 25.0, 0.0, 20.0, 7.3):
+        for det1 in (np.float64(525.0), 33.0):
+            cfg1 = make_cfg(nss, Detector, det1, 2.5, 0.2, 10.0)
+            b1, al1, e1 = np.array([np.radians(12.0)]), np.array([a1]), np.array([1.0])
+            try:
+                pe, cos, kd, kt, asked, calls = run_real(mods, cfg1, b1, al1, e1)
+                check_events(ctx, "real_single_event", al1, kd, kt, 2.5, 0.2, 10.0, pe, cos, asked, f"single@{float(det1):g}")
+                ctx.count("real.single_event_batches")
+            except Exception as e:  # noqa: BLE001
+                ctx.violation("EAS.__call__", "single-event-batch-raises", f"a batch of one event raises {type(e).__name__}: {e}",
+                              {"altDec": [a1], "detector_altitude_km": float(det1)})
     # ---- the decay altitudes given as whole kilometres in an integer type (an altitude scan built with np.arange): the same
     # numbers must give the same signal as their float64 copies (the output type may not be inherited from this input)
     grid = np.array([0, 2, 4, 6, 9, 12, 15, 18, 20, 22, 3, 7])
